@@ -2,8 +2,9 @@
 
 ADDENDA = {
     "C01": " long_lived: connections that still carry data 30 s after accept. abort_then_transfer: an aborted connection followed by a full transfer on the same proxy.",
+    "C02": " http routes are in a third of the cases the only member of a load-balancing group (the route is then made by the group controller, not by the proxy).",
     "C03": " Faults: the control connection is cut (udp and sudp) or the backend goes away for a while; after the fault the sender pauses longer than the re-establishment window, so later datagrams are outside the exclusion.",
-    "C04": " ssh_gateway ops (thorough and quick): logins through the ssh tunnel gateway with authorized / unauthorized keys. invalid_heartbeats: a session fed only wrong-key heartbeats must end by the heartbeat timeout.",
+    "C04": " ssh_gateway ops (thorough and quick): logins through the ssh tunnel gateway with authorized / unauthorized keys. invalid_heartbeats: a session fed only wrong-key heartbeats must end by the heartbeat timeout. sequences also runs the ssh gateway WITHOUT authorized_keys (any ssh peer passes the ssh 'none' method; the token given on the command line is the credential): with the right token the tunnel comes up, with a wrong / empty / absent token no session and no proxy may appear. oidc_token_expiry: the session logs in with an OIDC token that expires 2..3 s later, presents it 0..3 more times while valid and keeps itself alive with fresh tokens; after the expiry a work connection carrying the old token must be refused and closed, and heartbeats carrying it must not keep the session alive.",
     "C05": " A fault variant removes the client's TLS material after the first login (re-login must not fall back to clear text). Half of the wire cases give frpc its configuration as a file (TOML, or legacy INI) read by frp's own loader. identity_matrix also draws a server without certificate files of its own (generated certificate) for every combination.",
     "C06": " https_wire: real ClientHellos against the https muxer with multi-route proxies; a name matching no live route must be closed, never bridged and never left hanging.",
     "C07": " tcpmux_group_credentials: credential-protected tcpmux groups; http_routes also draws the '/' location and empty request paths.",
